@@ -370,6 +370,44 @@ def check_other_kex(st):
             judge_plain_rsa(bits, ['rsa-sha2-256'], res, 'text', wire.serialize(tree), st, 'kexpath')
 
 
+# ---- several RSA certificate algorithm names on one server (one certificate blob behind them): each name reports the certificate's details
+RSA_CERT_NAMES = ['ssh-rsa-cert-v01@openssh.com', 'rsa-sha2-256-cert-v01@openssh.com', 'rsa-sha2-512-cert-v01@openssh.com']
+
+
+def cert_family_cases():
+    import itertools
+    out = []
+    for k in (2, 3):
+        for names in itertools.permutations(RSA_CERT_NAMES, k):
+            for ca in (('rsa', 4096), ('rsa', 2048), ('ed25519', 256)):
+                for fmt in ('text', 'json'):
+                    out.append((names, 3072, ca, fmt))
+    return out
+
+
+def work_cert_family(chunk, st):
+    for names, hbits, (cak, cab), fmt in chunk:
+        ca_tree, ca_type = _ca_tree(cak, cab)
+        tree = wire.rsa_cert_tree(hbits, ca_tree)
+        keys = list(names) + ['ssh-ed25519']
+        hk = {n: tree for n in names}
+        hk['ssh-ed25519'] = wire.ed25519_blob_tree()
+        res, _ = run_server(keys, hk, opts=['-j'] if fmt == 'json' else [])
+        st.execution(res.world, outcome=('cert-family', len(names), fmt), root=('cert-family', names, cak, cab, fmt), nontrivial=('cert-family', names, cak, cab, fmt))
+        if res.status not in (0, 2, 3):
+            st.violation('cert-family:audit-failed', {'names': list(names), 'status': res.status})
+            continue
+        for n in names:
+            e = key_entry(res, fmt, n)
+            if e is None:
+                st.violation('cert-family:key-not-reported', {'names': list(names), 'name': n})
+                continue
+            shown = ca_type if fmt == 'json' or ca_type != 'ssh-rsa' else 'RSA'
+            if (e['size'], e['catype'], e['casize']) != (hbits, shown, cab):
+                st.violation('cert-family:details-missing-or-wrong-for-sibling-name', {'names': list(names), 'name': n, 'fmt': fmt, 'reported': [e['size'], e['catype'], e['casize']], 'truth': [hbits, shown, cab]})
+    st.sample({'rsa_certificate_names': list(chunk[0][0]), 'ca': list(chunk[0][2])}, cap=3)
+
+
 # ---- a key measured on one probe connection keeps its size and rating when a *later* probe connection fails while being set up
 def later_probe_fault_cases():
     out = []
@@ -447,6 +485,7 @@ def run(tier, seed):
     par.pmap(work_multi, multi_cases(), stats=st)
     par.pmap(work_concurrent, concurrent_cases(tier), stats=st, chunk=1)
     par.pmap(work_later_probe_fault, later_probe_fault_cases(), stats=st, chunk=4)
+    par.pmap(work_cert_family, cert_family_cases(), stats=st, chunk=4)
     check_other_kex(st)
     vcases = []
     for bits in H.pick(sizes, seed, 10 if tier == 'quick' else 60):
